@@ -204,6 +204,8 @@ SEPS = [' ', '\n', '\r\n', ' /*c*/ ', ' /*a\u2028b\u2029*/ ', '\r', ' /*a\nb*/ '
 
 
 def main(run, tier):
+    from . import parsefwd
+    parsefwd.add(run, tier, positions=True)
     es5 = importlib.import_module('calmjs.parse.parsers.es5')
     asttypes = importlib.import_module('calmjs.parse.asttypes')
     g = core.G()
